@@ -10,7 +10,7 @@ import fggs
 from . import gen, semgen
 from .common import enc_ext, enc_list, Toks
 
-RULE = ('recursive grammar shapes: <= 3 mutually recursive nonterminals, <= 2 rules each, linear and non-linear rules, domain sizes 1..2, '
+RULE = ('dense linearly recursive systems (2..4 mutually recursive nonterminals, several rules per (lhs, nonterminal) pair, self-loops present or absent: fill-in); recursive grammar shapes: <= 3 mutually recursive nonterminals, <= 2 rules each, linear and non-linear rules, domain sizes 1..2, '
         'weights {0,1/8,1/4,1/2,1} (Real/Log; divergent systems are detected by the model and skipped), {0,1} (Bool), '
         '{-inf,0,-1,-2,-3} (Viterbi, so cycles of weight exactly one and ties occur); x method {fixed-point, newton, linear} x '
         '(tol, kmax) in {(1e-8,1000),(1e-8,0),(1e-8,1),(1e-8,2)}; non-trivial = some rule uses a nonterminal of its own SCC')
@@ -28,6 +28,43 @@ def gen_shape(rng):
                              weights=lambda r: r.choice(REAL_W), max_cells=64)
     shape['vweights'] = {i: [rng.choice(VIT_W) for _ in w] for i, w in shape['weights'].items()}
     shape['bweights'] = {i: [float(rng.random() < 0.7) for _ in w] for i, w in shape['weights'].items()}
+    return shape
+
+
+def gen_linear_system(rng):
+    """a dense linearly recursive system: N mutually recursive nonterminals, X_i -> c_i and X_i -> a X_j for many pairs
+    (i, j) - several rules for the same pair, self-loops present or absent - so that block elimination creates fill-in
+    (diagonal blocks that exist only after an earlier elimination step) and coefficients must be accumulated"""
+    N = rng.choice([2, 3, 3, 4])
+    dom = rng.choice([1, 2])
+    unary = rng.random() < 0.5
+    ty = [0] if unary else []
+    nts = [list(ty) for _ in range(N)]
+    terms, weights, rules = [], {}, []
+    def term(arity, vals):
+        terms.append([0] * arity)
+        weights[len(terms) - 1] = vals
+        return len(terms) - 1
+    cells = dom if unary else 1
+    for i in range(N):
+        c = term(len(ty), [rng.choice([0.0, 0.5, 1.0, 0.25]) for _ in range(cells)])
+        rules.append(dict(lhs=i, nodes=list(ty), ext=list(range(len(ty))), edges=[('t', c, list(range(len(ty))))]))
+        for j in range(N):
+            if i == j and rng.random() < 0.5:
+                continue          # no direct self-loop: a diagonal block can then only arise by fill-in
+            for _ in range(rng.choice([0, 1, 1, 2])):
+                if unary and rng.random() < 0.5:
+                    # X_i(u) -> a(u, v) X_j(v)
+                    a = term(2, [rng.choice([0.0, 0.0625, 0.125, 0.03125]) for _ in range(dom * dom)])
+                    rules.append(dict(lhs=i, nodes=[0, 0], ext=[0], edges=[('t', a, [0, 1]), ('n', j, [1])]))
+                else:
+                    a = term(len(ty), [rng.choice([0.0625, 0.125, 0.03125, 0.25]) for _ in range(cells)])
+                    rules.append(dict(lhs=i, nodes=list(ty), ext=list(range(len(ty))),
+                                      edges=[('t', a, list(range(len(ty)))), ('n', j, list(range(len(ty))))]))
+    rng.shuffle(rules)
+    shape = dict(nls=[dom], terms=terms, nts=nts, start=0, rules=rules, weights=weights)
+    shape['vweights'] = {i: [rng.choice(VIT_W) for _ in w] for i, w in weights.items()}
+    shape['bweights'] = {i: [float(x != 0) for x in w] for i, w in weights.items()}
     return shape
 
 
@@ -59,7 +96,7 @@ def run(ctx):
     attempts = 0
     while done < n and attempts < 30 * n:
         attempts += 1
-        shape = gen_shape(ctx.rng)
+        shape = gen_linear_system(ctx.rng) if attempts % 3 == 0 else gen_shape(ctx.rng)
         recursive, linear = sccs_and_linearity(shape)
         if not recursive:
             continue
